@@ -113,6 +113,13 @@ class FuncInfo:
                     self.sites[id(n)] = label("div")
                 s.generic_visit(n)
 
+            def visit_Assign(s, n):
+                if len(n.targets) == 1 and isinstance(n.targets[0], ast.Name):
+                    self.sites[id(n)] = label("assign", n.targets[0].id)
+                elif len(n.targets) == 1 and isinstance(n.targets[0], ast.Subscript):
+                    self.sites[id(n)] = label("store")
+                s.generic_visit(n)
+
             def visit_Compare(s, n):
                 self.sites[id(n)] = label("cmp")
                 s.generic_visit(n)
